@@ -331,9 +331,18 @@ def nest(levels, headers, blocks_per, nls):
 
 
 @st.composite
-def page(draw, rich=True, max_headers=8, shared_keys=False, levels=None):
+def page(draw, rich=True, max_headers=8, shared_keys=False, levels=None, plain_scopes=False):
     names = Names()
     keys = ["k", "due", "p"] if shared_keys else None
+    if plain_scopes:
+        # no metadata on title / header lines: every note carries only what is written in it
+        if levels is None:
+            levels = draw(skeleton(max_headers))
+        return {"title": [W("Title")], "head": [], "blank": 1,
+                "body": [draw(block(names, rich, keys)) for _ in range(draw(st.sampled_from([0, 1, 1, 2])))],
+                "secs": nest(levels, [[W(names.next("Sec"))] for _ in levels],
+                             [[draw(block(names, rich, keys, max_items=2)) for _ in range(draw(st.sampled_from([0, 1, 1])))]
+                              for _ in levels], [0 for _ in levels])}
     title = [W(draw(st.sampled_from(["Title", "Page", "A"])))] + draw(
         words(names, 0, 3, first_plain=False, keys=keys, scope_line=True))
     if draw(st.integers(0, 3)) == 0:
@@ -548,3 +557,63 @@ def independent_parse(text: str):
     parser.addErrorListener(L(par_errs))
     tree = parser.prog()
     return lex_errs, par_errs, tree
+
+
+# ------------------------------------------------------------------ directories of pages
+
+_SUFFIX_ALPHABET = [c for c in "0123456789ABCDEFGHIJKLMNOPQRSTUVWXYZabcdefghijklmnopqrstuvwxyz" if c not in "IOQSgijlpqy"]
+
+
+def _suffix(n: int) -> str:
+    """n-th planted suffix: high in the chain, so ZIDs allocated during a check never collide;
+    every third one is a three-character suffix."""
+    a = _SUFFIX_ALPHABET  # 51 characters
+    if n % 3 == 2:
+        m = n // 3
+        return "z" + a[(m // 51) % 51] + a[m % 51]
+    m = n - n // 3
+    return a[40 + (m // 51) % 11] + a[m % 51]
+
+
+def iter_items(pg):
+    for bl in pg["body"]:
+        for it in bl["items"]:
+            if "kind" in it:
+                yield it
+
+    def rec(sec):
+        for bl in sec["blocks"]:
+            for it in bl["items"]:
+                if "kind" in it:
+                    yield it
+        for c in sec["children"]:
+            yield from rec(c)
+
+    for s in pg["secs"]:
+        yield from rec(s)
+
+
+def make_zids_unique(pages: list) -> None:
+    """Rewrite the ZIDs written in a list of abstract pages so that no two items share one
+    (the date part is kept; suffixes start high so freshly allocated ZIDs never collide)."""
+    n = 0
+    for pg in pages:
+        for it in iter_items(pg):
+            if it["zid"]:
+                it["zid"] = it["zid"].split("#")[0] + "#" + _suffix(n)
+                n += 1
+
+
+@st.composite
+def directory(draw, n_min=1, n_max=3, rich=True, max_headers=3, all_zids=False, plain_scopes=False):
+    names = draw(st.lists(st.sampled_from(["a", "b", "ab", "notes", "sub/a", "sub/c", "p_1", "x", "2024/log"]),
+                          min_size=n_min, max_size=n_max, unique=True))
+    pages = [draw(page(rich=rich, max_headers=max_headers, plain_scopes=plain_scopes)) for _ in names]
+    if all_zids:
+        for pg in pages:
+            for it in iter_items(pg):
+                if not it["zid"]:
+                    it["zid"] = "240510#00"
+                    it["longdate"] = None
+    make_zids_unique(pages)
+    return {n + ".zo": pg for n, pg in zip(names, pages)}
